@@ -104,8 +104,8 @@ theorem finish_sets_outcome {s s' : St} {r : Bool} {e : Entry} {ph : Phase} {f :
     have h2 := hf; rw [List.getElem?_eq_getElem hlt] at h2; exact Option.some.inj h2
   simp only [step, hinf, Option.some.injEq] at h; subst h
   cases r
-  · exact ⟨{ f with cur := { f.cur with err := true } }, by simp [finishFlow, hf, hlt, hget], Or.inr rfl⟩
-  · exact ⟨{ f with cur := { f.cur with resp := true } }, by simp [finishFlow, hf, hlt, hget], Or.inl rfl⟩
+  · exact ⟨{ f with cur := { f.cur with err := true }, lv := false }, by simp [finishFlow, hf, hlt, hget], Or.inr rfl⟩
+  · exact ⟨{ f with cur := { f.cur with resp := true }, lv := false }, by simp [finishFlow, hf, hlt, hget], Or.inl rfl⟩
 
 /-- liveness under fairness: from any reachable state, if the history continues with loop/server operations
     only and ends where no terminal event is enabled (the server has answered or refused everything pending
@@ -156,6 +156,80 @@ example : ∃ s', run (startReplay (init [okAttr, okAttr] [{ cur := cur0, backup
 /-- without fairness nothing is promised: a replay whose server never answers stays in flight -/
 example : ∃ s', run (init [okAttr] [{ cur := cur0, backup := none }]) [.start [0], .take, .send] = some s' ∧
     s'.inflight.isSome = true ∧ finTickets s'.log = [] :=
+  ⟨_, rfl, by decide⟩
+
+/-! ### the option is read when a flow is dispatched -/
+
+/-- `take` decides with the option value it finds when the flow has been dequeued: with the option at 1 the loop
+    awaits the replay (it becomes `inflight`, nothing joins the background set), with -1 the replay joins the
+    background set and the loop stays free -/
+theorem dispatch_reads_option_at_take {s s' : St} (h : step s .take = some s') :
+    (s.seq = true → s'.inflight.isSome = true ∧ s'.bg = s.bg) ∧
+    (s.seq = false → s'.inflight = none ∧ s'.bg.length = s.bg.length + 1) := by
+  simp only [step] at h
+  split at h
+  · rename_i e rest hinf hq
+    split at h
+    · rename_i hs
+      simp only [Option.some.injEq] at h; subst h
+      exact ⟨fun _ => ⟨rfl, rfl⟩, fun h' => by simp [hs] at h'⟩
+    · rename_i hs
+      simp only [Option.some.injEq] at h; subst h
+      exact ⟨fun h' => absurd h' hs, fun _ => ⟨hinf, by simp⟩⟩
+  · simp at h
+
+/-- whatever the option did before and does afterwards (`setopt` at idle or busy moments): read oldest-first, the
+    global log never shows a replay being started while a replay that was started with the option at 1 has not
+    finished; the status is the ticket of the replay the loop is awaiting -/
+theorem sequential_while_option_is_one {attrs : List Attr} {fs : List FState} {s : St} (h : Reach attrs fs s) :
+    seqStatus s.glog = some (openTicket s) :=
+  (Reach.inv h).gseq
+
+/-- in particular no `take` is possible while a replay started with the option at 1 is running -/
+theorem no_dispatch_while_awaiting {s : St} (h : s.inflight.isSome = true) : step s .take = none := by
+  cases hinf : s.inflight with
+  | none => simp [hinf] at h
+  | some p => simp [step, hinf]
+
+/-- every replay ever started, in either mode, has finished, is awaited by the loop, or runs in the background -/
+theorem started_replays_accounted {attrs : List Attr} {fs : List FState} {s : St} (h : Reach attrs fs s) :
+    ∀ t ∈ gstartTickets s.glog, t ∈ gfinTickets s.glog ∨ openTicket s = some t ∨ t ∈ s.bg.map (·.1.ticket) :=
+  (Reach.inv h).gclosed
+
+/-- liveness for both modes under fairness: if the history continues with loop/server operations only and ends
+    where no terminal event is enabled — nothing to take, nothing awaited, no background replay left to
+    complete — then every replay ever started (awaited or background) has finished -/
+theorem all_started_replays_complete {attrs : List Attr} {fs : List FState} {s s' : St} {os : List Op}
+    (h : Reach attrs fs s) (_hloop : ∀ o ∈ os, isLoopOp o = true) (hrun : run s os = some s')
+    (hfair : step s' .take = none ∧ (∀ r, step s' (.finish r) = none) ∧ ∀ t r, step s' (.bfinish t r) = none) :
+    s'.inflight = none ∧ s'.queue = [] ∧ s'.bg = [] ∧ ∀ t ∈ gstartTickets s'.glog, t ∈ gfinTickets s'.glog := by
+  obtain ⟨h1, h2, _⟩ := every_replay_completes h _hloop hrun ⟨hfair.1, hfair.2.1⟩
+  have hbg : s'.bg = [] := by
+    cases hb : s'.bg with
+    | nil => rfl
+    | cons p ps =>
+      have := hfair.2.2 p.1.ticket true
+      simp [step, hb] at this
+  refine ⟨h1, h2, hbg, ?_⟩
+  intro t ht
+  rcases (Reach.inv (Reach.extend h hrun)).gclosed t ht with h3 | h3 | h3
+  · exact h3
+  · simp [openTicket, h1] at h3
+  · simp [hbg] at h3
+
+/-- the option switched from -1 to 1 while the loop is idle, then two flows queued: the first is dispatched with
+    the option value current at dispatch (1): it is awaited, and the second cannot be taken before it finishes -/
+example : ∃ s, run (init [okAttr, okAttr] [{ cur := cur0, backup := none }, { cur := cur0, backup := none }])
+      [.setopt false, .setopt true, .start [0, 1], .take] = some s ∧
+    s.inflight.isSome = true ∧ s.bg = [] ∧ step s .take = none :=
+  ⟨_, rfl, by decide⟩
+
+/-- with the option at -1 both are dispatched at once and run in the background; switching to 1 afterwards does
+    not stop them, but the next flow is awaited -/
+example : ∃ s, run (init [okAttr, okAttr, okAttr]
+        [{ cur := cur0, backup := none }, { cur := cur0, backup := none }, { cur := cur0, backup := none }])
+      [.setopt false, .start [0, 1], .take, .take, .setopt true, .start [2], .take, .bsend 0, .bfinish 1 false] = some s ∧
+    s.bg.map (·.1.ticket) = [0] ∧ openTicket s = some 2 ∧ seqStatus s.glog = some (some 2) :=
   ⟨_, rfl, by decide⟩
 
 /-! ### non-vacuity -/
